@@ -115,13 +115,17 @@ def fresh(prep):
 
 def feed_impl(prep, chunks, reuse_buffer=False):
     """returns (list of per-call results, session snapshot, returned message objects with their JSON at return time)"""
+    import guard
+
     im, s = fresh(prep)
     results = []
     returned = []
-    for ch in chunks:
+    for n_, ch in enumerate(chunks):
         buf = bytearray(ch)
         try:
-            ms = s.receive(buf if reuse_buffer else bytes(ch))
+            # without buffer reuse the chunk arrives as one of the legal buffer kinds in turn (bytes, memoryview of signed / char / ctypes items, ...)
+            arg = buf if reuse_buffer else IMPL.input_object(bytes(ch), IMPL.INPUT_KINDS[(n_ + len(chunks)) % len(IMPL.INPUT_KINDS)])
+            ms = guard.guarded(lambda: s.receive(arg), 20.0)
             results.append(("msgs", [C.msg_to_json(m) for m in ms]))
             for m in ms:
                 returned.append((m, json.dumps(C.msg_to_json(m), sort_keys=True)))
@@ -267,6 +271,89 @@ def history_requests(prep, name, chunks):
         reqs.append({"op": "call", "name": name, "call": {"k": "receive", "chunk": bytes(ch).hex()}})
     reqs.append({"op": "sess_del", "name": name})
     return reqs
+
+
+# ------------------------------------------------------------------ the same ARGUMENT OBJECTS handed to several sends (implementation only)
+
+def reused_argument_histories(rng, count, hist):
+    """A session sends several messages built from the SAME argument objects (one PartialAttribute, one controls list, one filter tree, one
+    list of URIs), which the caller edits in place between the sends, with drains in between.  Expected: every accepted send puts the encoding
+    of the argument values AT THAT CALL on the wire — the drained stream is the concatenation of the harness's own BER encodings of them."""
+    import mutate
+    import p_c04
+
+    out = []
+    fr = p_c04.Freedom(rng, on=False)
+
+    def enc(m):
+        node, _ = p_c04.msg_tree(m, fr)
+        return ber.encode(node)
+
+    t = C.tx
+    for n in range(count):
+        role = rng.choice(["client", "server"])
+        log = []
+        expected = b""
+        drained = b""
+        try:
+            if role == "server":
+                s = sansldap.LDAPServer()
+                for i in (1, 2):
+                    s.receive(enc({"id": i, "op": {"k": "searchReq", "base": t(""), "scope": 2, "deref": 0, "size": 0, "time": 0, "typesOnly": False,
+                                                   "filter": {"k": "present", "a": t("cn")}, "attrs": []}, "controls": []}))
+                attr = M.PartialAttribute("cn", [rng.choice([b"x", b"", b"\xff\x00"]) for _ in range(rng.choice([1, 2, 3]))])
+                attrs = [attr] + ([M.PartialAttribute("sn", [b"y"])] if rng.random() < 0.5 else [])
+                ctrls = [C.control_from_json(gen.g_control(rng)) for _ in range(rng.choice([0, 1, 2]))]
+                uris = [rng.choice(["ldap://a", "ldap://b/dc=x"]) for _ in range(rng.choice([1, 2]))]
+                for step in range(rng.choice([2, 3, 4, 5])):
+                    i = rng.choice([1, 2])
+                    if rng.random() < 0.7:
+                        s.search_result_entry(i, "cn=x", attrs, ctrls)
+                        m = {"id": i, "op": {"k": "searchEntry", "name": t("cn=x"), "attrs": [{"name": t(a.name), "vals": [bytes(v).hex() for v in a.values]}
+                                                                                             for a in attrs]},
+                             "controls": [C.control_to_json(c) for c in ctrls]}
+                    else:
+                        s.search_result_reference(i, uris, ctrls)
+                        m = {"id": i, "op": {"k": "searchRef", "uris": [t(u) for u in uris]}, "controls": [C.control_to_json(c) for c in ctrls]}
+                    expected += enc(m)
+                    log.append(("send", m))
+                    if rng.random() < 0.4:
+                        drained += s.data_to_send(rng.choice([None, 1, 7, 10 ** 6]))
+                    # the caller edits ITS objects in place
+                    k = mutate.edit_lists(attrs, rng) + mutate.edit_lists(uris, rng) + (mutate.edit_lists(ctrls, rng) if ctrls else 0)
+                    if rng.random() < 0.5:
+                        attr.values.append(rng.choice([b"z", b"", b"later"]))
+                        k += 1
+                    log.append(("edit-in-place", k))
+            else:
+                s = sansldap.LDAPClient()
+                f = C.filter_from_json(gen.g_filter(rng, 3) if hasattr(gen, "g_filter") else {"k": "and", "fs": [{"k": "present", "a": t("cn")}]})
+                if not mutate.lists_of(f):
+                    f = sansldap.FilterAnd([f, sansldap.FilterPresent("cn")])
+                wanted = [rng.choice(["cn", "sn", "1.1", "*"]) for _ in range(rng.choice([1, 2]))]
+                ctrls = [C.control_from_json(gen.g_control(rng)) for _ in range(rng.choice([0, 1, 2]))]
+                for step in range(rng.choice([2, 3, 4])):
+                    i = s.search_request("dc=x", filter=f, attributes=wanted, controls=ctrls)
+                    m = {"id": i, "op": {"k": "searchReq", "base": t("dc=x"), "scope": 2, "deref": 0, "size": 0, "time": 0, "typesOnly": False,
+                                         "filter": C.filter_to_json(f), "attrs": [t(a) for a in wanted]}, "controls": [C.control_to_json(c) for c in ctrls]}
+                    expected += enc(m)
+                    log.append(("send", m))
+                    if rng.random() < 0.4:
+                        drained += s.data_to_send(rng.choice([None, 1, 7, 10 ** 6]))
+                    k = mutate.edit_lists(f, rng) + mutate.edit_lists(wanted, rng) + (mutate.edit_lists(ctrls, rng) if ctrls else 0)
+                    log.append(("edit-in-place", k))
+            drained += s.data_to_send()
+        except BaseException as e:  # noqa: BLE001
+            hist["reused-arguments:" + type(e).__name__] += 1
+            continue
+        hist["reused-arguments:sessions"] += 1
+        if drained != expected:
+            out.append({"key": None, "what": "the drained stream is not the concatenation of the encodings of the messages as they were AT EACH CALL: the same "
+                        "argument objects (attribute / controls / filter / URI lists) were handed to several sends and edited in place in between",
+                        "role": role, "log": log, "drained": drained.hex(), "expected": expected.hex()})
+            if len(out) >= 5:
+                break
+    return out
 
 
 # ------------------------------------------------------------------ sends whose PACKING fails (implementation only)
